@@ -1035,3 +1035,11 @@ Qed.
 (** the five relational operators are in the domain *)
 Lemma five_operators_wf : forallb wf_relop five_operators = true.
 Proof. reflexivity. Qed.
+
+(** formatting is unambiguous on the domain *)
+Corollary str_injective r1 r2 :
+  wf_rels r1 = true -> wf_rels r2 = true -> rel_str r1 = rel_str r2 -> r1 = r2.
+Proof.
+  intros H1 H2 E. pose proof (parse_str_inverse r1 H1) as P1. pose proof (parse_str_inverse r2 H2) as P2.
+  rewrite E in P1. congruence.
+Qed.
